@@ -254,6 +254,8 @@ Proof.
     eapply exec_opmod_g; eauto.
   - apply andb_prop in FR. destruct FR as [FR FE]. apply andb_prop in FR. destruct FR as [NS BF].
     eapply exec_opdef_g; eauto.
+  - discriminate.
+  - discriminate.
 Qed.
 
 (* ------------------------------------------------------------------ a loop body *)
@@ -520,6 +522,29 @@ Proof.
   rewrite map_length. reflexivity.
 Qed.
 
+Lemma length_and_loop_local f w l : forall sg, length (fst (and_loop f w sg l)) = length sg.
+Proof.
+  induction l as [|[[x p] old] tl IH]; intros sg; simpl; auto.
+  destruct (nth_error sg x); simpl; auto.
+  destruct (v_opassign_old p f old w v) as [v' ok]. destruct ok; simpl.
+  - rewrite IH. apply length_set_var_local.
+  - apply length_set_var_local.
+Qed.
+
+Lemma length_exec_s_local s0 s s1 o : exec_s s0 s = (s1, o) -> length s1 = length s0.
+Proof.
+  intro Es. destruct s; simpl in Es;
+    repeat match goal with
+           | H : context [match ?x with _ => _ end] |- _ => destruct x eqn:?; simpl in H
+           | H : (_, _) = (_, _) |- _ => inversion H; subst; clear H
+           end; unfold assign_to in *;
+    repeat match goal with
+           | H : context [match ?x with _ => _ end] |- _ => destruct x eqn:?; simpl in H
+           | H : (_, _) = (_, _) |- _ => inversion H; subst; clear H
+           end; rewrite ?length_set_var_local; auto.
+  pose proof (length_and_loop_local f v (combine ts l) s0) as HL. rewrite Es in HL. exact HL.
+Qed.
+
 Lemma m_exec_for_g body : forallb sfrag body = true ->
   forall pending ts h rs sg st' ok G,
   Inv h ((handles_list pending ++ handles_list rs) ++ G) -> repr_list h pending ts -> Sim0 h rs sg ->
@@ -552,16 +577,7 @@ Proof.
       { assert (LL : forall b s0, length (fst (exec_list s0 b)) = length s0).
         { clear. induction b as [|s b IHb]; intro s0; simpl; auto.
           destruct (exec_s s0 s) as [s1 o] eqn:Es.
-          assert (length s1 = length s0).
-          { clear - Es. destruct s; simpl in Es;
-              repeat match goal with
-                     | H : context [match ?x with _ => _ end] |- _ => destruct x eqn:?; simpl in H
-                     | H : (_, _) = (_, _) |- _ => inversion H; subst; clear H
-                     end; unfold assign_to in *;
-              repeat match goal with
-                     | H : context [match ?x with _ => _ end] |- _ => destruct x eqn:?; simpl in H
-                     | H : (_, _) = (_, _) |- _ => inversion H; subst; clear H
-                     end; rewrite ?length_set_var_local; auto. }
+          assert (length s1 = length s0) by (eapply length_exec_s_local; eauto).
           destruct o; simpl; auto. rewrite IHb. auto. }
         pose proof (LL body (set_var sg 0 te)) as Hl. rewrite Ev1 in Hl. simpl in Hl. rewrite Hl. apply length_set_var_local. }
       destruct rs as [|r0 rs']; [discriminate|]. simpl in L0. simpl in L. lia. }
